@@ -89,6 +89,13 @@ type Explorer struct {
 	fresh      bool
 	freshN     int
 	decimals   map[int]int
+	spec       int
+	panicTrace string
+	curFrame   *frame
+	ForkSites  map[string]int
+	InitTime   time.Duration
+	noIfConv   bool
+	IfConversions int
 	shardedByChoice bool
 	strLenUsed bool
 	strLenAxioms int
@@ -139,6 +146,9 @@ func NewExplorer(cfg Config, harness string) *Explorer {
 		Scenarios: map[string]int{}, Inconclusive: map[string]int{}, Funcs: map[string]int{}, Stubs: map[string]int{},
 		Assumptions: map[string]int{}, start: time.Now()}
 	e.sol = NewSolver(cfg.Solver, cfg.QueryTimeout)
+	if os.Getenv("SYMGO_FORKSITES") != "" {
+		e.ForkSites = map[string]int{}
+	}
 	if f := os.Getenv("SYMGO_SMTLOG"); f != "" {
 		w, _ := os.Create(f)
 		e.sol.LogW = w
@@ -164,6 +174,7 @@ func (e *Explorer) beginPath(prefix []int) {
 	e.overflowObl = nil
 	e.pathInconclusive = ""
 	e.freshN = 0
+	e.panicTrace = ""
 	e.decimals = map[int]int{}
 	e.strLenUsed = false
 	e.sol.Push()
@@ -237,6 +248,9 @@ func (e *Explorer) addPC(lit *Term) {
 // sideObligation records a condition under which a rewrite or an integer-mode
 // operation is exact; all of them are checked at the end of the path.
 func (e *Explorer) sideObligation(c *Term, why string) {
+	if e.spec > 0 {
+		panic(specAbort{"side obligation inside a speculative region"})
+	}
 	if c.isConst() {
 		if !c.bval {
 			e.noteInconclusive("side obligation false: " + why)
@@ -277,9 +291,62 @@ func (e *Explorer) takeDecision(fresh func() int) int {
 }
 
 func (e *Explorer) pushAlt(d int) {
+	if e.ForkSites != nil && e.curFrame != nil && e.curFrame.cur != nil {
+		fr := e.curFrame
+		p := fr.i.prog.Fset.Position(fr.cur.Pos())
+		k := fmt.Sprintf("%s %s:%d", fr.fn.Name(), shortPos(p.Filename), p.Line)
+		if fr.caller != nil && fr.caller.cur != nil {
+			q := fr.i.prog.Fset.Position(fr.caller.cur.Pos())
+			k += fmt.Sprintf(" <- %s:%d", fr.caller.fn.Name(), q.Line)
+		}
+		e.ForkSites[k]++
+	}
 	alt := append(append(make([]int, 0, e.pos+1), e.prefix[:e.pos]...), d)
 	e.work = append(e.work, alt)
 	e.Forks++
+}
+
+// pushAssume marks lit as known during speculative execution; popAssume undoes it.
+func (e *Explorer) pushAssume(lit *Term) map[int]*bool {
+	undo := map[int]*bool{}
+	var set func(t *Term, v bool)
+	set = func(t *Term, v bool) {
+		if t.isConst() {
+			return
+		}
+		switch {
+		case t.op == "not":
+			set(t.args[0], !v)
+			return
+		case t.op == "and" && v:
+			set(t.args[0], true)
+			set(t.args[1], true)
+		case t.op == "or" && !v:
+			set(t.args[0], false)
+			set(t.args[1], false)
+		}
+		if _, done := undo[t.id]; !done {
+			if old, ok := e.known[t.id]; ok {
+				o := old
+				undo[t.id] = &o
+			} else {
+				undo[t.id] = nil
+			}
+		}
+		e.known[t.id] = v
+	}
+	set(lit, true)
+	return undo
+}
+
+func (e *Explorer) popAssume(undo map[int]*bool) {
+	for id, old := range undo {
+		if old == nil {
+			delete(e.known, id)
+		} else {
+			e.known[id] = *old
+		}
+	}
 }
 
 // decide returns a concrete truth value for cond on this path, forking when
@@ -287,6 +354,9 @@ func (e *Explorer) pushAlt(d int) {
 func (e *Explorer) decide(cond *Term) bool {
 	if v, ok := e.lookupKnown(cond); ok {
 		return v
+	}
+	if e.spec > 0 {
+		panic(specAbort{"undetermined condition inside a speculative region"})
 	}
 	d := e.takeDecision(func() int {
 		rt := e.sol.CheckWith(cond)
@@ -339,6 +409,9 @@ func (e *Explorer) decideN(n int, sched bool) int {
 
 // assume adds cond to the path condition; prunes the path if infeasible.
 func (e *Explorer) assume(cond *Term, what string) {
+	if e.spec > 0 {
+		panic(specAbort{"assumption inside a speculative region"})
+	}
 	if v, ok := e.lookupKnown(cond); ok {
 		if !v {
 			panic(pathPruned{what})
@@ -581,6 +654,9 @@ type RunResult struct {
 	Bounds        map[string]any `json:"bounds"`
 	Shard         int            `json:"shard"`
 	Shards        int            `json:"shards"`
+	ForkSites     map[string]int `json:"fork_sites,omitempty"`
+	IfConversions int            `json:"if_conversions"`
+	InitSeconds   float64        `json:"init_seconds"`
 }
 
 func (e *Explorer) Result() *RunResult {
@@ -590,7 +666,7 @@ func (e *Explorer) Result() *RunResult {
 		SolverSeconds: e.sol.Time.Seconds(), WallSeconds: time.Since(e.start).Seconds(), Solver: e.cfg.Solver,
 		Reach: e.Reach, AssertLabels: e.AssertLabels, Scenarios: e.Scenarios, Inconclusive: e.Inconclusive,
 		Witnesses: e.Witnesses, Stubs: e.Stubs, Assumptions: e.Assumptions, MaxSteps: e.MaxStepsSeen, Truncated: e.Truncated,
-		Shard: e.cfg.Shard, Shards: e.cfg.Shards}
+		Shard: e.cfg.Shard, Shards: e.cfg.Shards, ForkSites: e.ForkSites, IfConversions: e.IfConversions, InitSeconds: e.InitTime.Seconds()}
 	for _, k := range e.ViolOrder {
 		r.Violations = append(r.Violations, e.Viol[k])
 	}
